@@ -35,4 +35,5 @@ Definition check (c : list Z * list (N * addr * Z) * list op * obs) : bool :=
 
 (* short constructors for the case files *)
 Definition V := EValue. Definition K := ESuicide. Definition S := ESnap. Definition R := ERevert.
+Definition L := ELock. Definition Un := EUnstake. Definition TC := contract_tx.
 Definition Ob (b : list Z) (lk sc : Z) : obs := {| o_bal := b; o_locked := lk; o_sched := sc |}.
